@@ -1,0 +1,11 @@
+//go:build verif
+
+package mongokit
+
+import "github.com/256dpi/lungo/bsonkit"
+
+// VerifBase returns the underlying index. It is only available with the verif
+// build tag and used by the verification harness.
+func (i *Index) VerifBase() *bsonkit.Index {
+	return i.base
+}
